@@ -193,7 +193,7 @@ pub fn check_case(c: &TCase, rec: &mut Rec) -> Verdict {
     if t.term_count() >= 2 {
         needs = true;
     }
-    rec.class(&format!("terms:{}", t.term_count().min(8)));
+    rec.class(&format!("terms:{}", match t.term_count() { n @ 0..=8 => n.to_string(), 9..=39 => "9-39".into(), 40..=256 => "40-256".into(), _ => ">256".into() }));
     rec.class(&format!("paren-depth:{}", t.depth().min(4)));
     let r = guarded(|| -> Verdict {
         // 1. print (library Display) -> parse gives an equal tree
@@ -256,15 +256,45 @@ pub fn tcase(depth: u32) -> BoxedStrategy<TCase> {
     bx((filter_or(depth, true), super::c04::choices()).prop_map(|(filter, choices)| TCase { filter, choices }))
 }
 
+/// wide filters: many sibling terms and parenthesised groups in one filter (hundreds to ~1000), flat or one level down.
+/// (Seeded change C08-c: a nesting counter that is never decremented counts *all* groups of a filter.)
+pub fn wide_tcase() -> BoxedStrategy<TCase> {
+    let n = prop_oneof![4 => 2usize..40, 2 => 40usize..250, 3 => 250usize..330, 1 => 600usize..1100];
+    let small = prop::collection::vec(term_leaf(true), 1..=2);
+    let item = (any::<bool>(), small);
+    bx((n.prop_flat_map(move |n| prop::collection::vec(item.clone(), n..=n)), 0u8..4, super::c04::choices()).prop_map(|(items, mode, choices)| {
+        // each item: a bare term, or a parenthesised group of one or two terms
+        let terms: Vec<FTerm> = items
+            .into_iter()
+            .map(|(group, mut ts)| {
+                if group {
+                    FTerm::Parens(FOr(vec![FAnd(ts)]))
+                } else {
+                    ts.truncate(1);
+                    ts.pop().unwrap()
+                }
+            })
+            .collect();
+        let filter = match mode {
+            0 => FOr(terms.into_iter().map(|t| FAnd(vec![t])).collect()), // a or b or c ...
+            1 => FOr(vec![FAnd(terms)]),                                  // a and b and c ...
+            2 => FOr(terms.chunks(3).map(|c| FAnd(c.to_vec())).collect()), // a and b and c or d and e and f ...
+            _ => FOr(vec![FAnd(vec![FTerm::Parens(FOr(terms.into_iter().map(|t| FAnd(vec![t])).collect()))])]), // ( a or b ... )
+        };
+        TCase { filter, choices }
+    }))
+}
+
 pub fn run(ctx: &mut Ctx) {
-    ctx.rule("generated: filter trees with all term kinds (has, not, six comparisons, *==, ^symbol, relationship), literals of every kind the syntax admits (strings with escapes, numbers with units, dates, times, timestamps with zones, refs with display names, uris, symbols, booleans), paths of 1-4 segments, names other than the keywords; oracles: (1) Filter::try_from(t.to_string()) equals t structurally (literals strictly: Ref dis and zone checked; *==/relation refs by id since Display omits dis), (2) the reference printer's text with random legal spacing and line breaks parses to exactly t (precedence, grouping, where a path ends), (3) a second print-parse round gives the same tree, (4) a Visitor sees the nodes of t in order; non-trivial: >= 2 terms or a multi-segment path or a literal needing escape/unit/zone/dis; distinct by text");
+    ctx.rule("generated: filter trees with all term kinds (has, not, six comparisons, *==, ^symbol, relationship), literals of every kind the syntax admits (strings with escapes, numbers with units, dates, times, timestamps with zones, refs with display names, uris, symbols, booleans), paths of 1-4 segments, names other than the keywords; oracles: (1) Filter::try_from(t.to_string()) equals t structurally (literals strictly: Ref dis and zone checked; *==/relation refs by id since Display omits dis), (2) the reference printer's text with random legal spacing and line breaks parses to exactly t (precedence, grouping, where a path ends), (3) a second print-parse round gives the same tree, (4) a Visitor sees the nodes of t in order; non-trivial: >= 2 terms or a multi-segment path or a literal needing escape/unit/zone/dis; distinct by text; a second generator makes *wide* filters: 2-1100 sibling terms, about half of them parenthesised groups, joined by or / and / both / inside one group");
     let depth = ctx.tier.pick(2, 3) as u32;
     ctx.run_sub::<TCase>("print-parse", ctx.tier.pick(80_000, 1_600_000), &move || tcase(depth), &check_case);
+    ctx.run_sub::<TCase>("print-parse-wide", ctx.tier.pick(1_600, 32_000), &wide_tcase, &check_case);
 }
 
 pub fn replay(kind: &str, case: &J, rec: &mut Rec) -> Verdict {
     match kind {
-        "print-parse" => TCase::from_json(case).map(|c| check_case(&c, rec)).unwrap_or_else(|e| Verdict::fail("infra:bad-replay", e)),
+        "print-parse" | "print-parse-wide" => TCase::from_json(case).map(|c| check_case(&c, rec)).unwrap_or_else(|e| Verdict::fail("infra:bad-replay", e)),
         _ => Verdict::fail("infra:unknown-kind", kind),
     }
 }
